@@ -138,3 +138,9 @@ package client
 //@   loop 1 backedge assert retry-keeps-remainder: called((*Broker).handleSendError) && payload == lastret((*Broker).handleSendError, 0) && payload != nil
 //@   before call sts.Payload.Remove assert changed-files-dropped: arg0 == payload && arg1 == binned && (file == nil || (called(sts.FileSource.Sync) && (lastret(sts.FileSource.Sync, 0) != nil || lastret(sts.FileSource.Sync, 1) != nil)))
 //@   loop 3 backedge assert unchanged-files-kept: !called(sts.Payload.Remove) ==> called(sts.FileSource.Sync) && lastret(sts.FileSource.Sync, 0) == nil && lastret(sts.FileSource.Sync, 1) == nil && lastarg(sts.FileSource.Sync, 1) == file && file == lastret(sts.FileCache.Get, 0) && lastarg(sts.FileCache.Get, 1) == binned.GetName()
+
+//@ func (*Broker).startTrack
+//@   before call sts.SendLogger.Sent assert sent-needs-all-bytes: pFile.sent >= pFile.size && as(arg1, *progressFile) == pFile
+//@   before send chan-send assert polled-needs-all-bytes: as(arg1, *progressFile).sent >= as(arg1, *progressFile).size && arg0 == broker.chValidate
+//@   loop 2 backedge assert accounting: has(progress, binned.GetName()) && progress[binned.GetName()] == pFile && pFile.sent == ite(athead(has(progress, binned.GetName())) && athead(progress[binned.GetName()].hash) == binned.GetFileHash(), athead(progress[binned.GetName()].sent), 0) + lastret(sts.Binned.GetSlice, 1) && pFile.hash == binned.GetFileHash()
+//@   loop 2 backedge assert tracks-the-announced-size: !(athead(has(progress, binned.GetName())) && athead(progress[binned.GetName()].hash) == binned.GetFileHash()) ==> pFile.size == binned.GetSendSize()
